@@ -6,6 +6,7 @@ import (
 	"fmt"
 	"math/big"
 	"sort"
+	"strconv"
 	"strings"
 	"time"
 )
@@ -647,7 +648,11 @@ func writeKey(sb *strings.Builder, v Value) {
 		sb.WriteString(x.String())
 		sb.WriteByte(';')
 	case string:
-		fmt.Fprintf(sb, "s%d:%s;", len(x), x)
+		sb.WriteByte('s')
+		sb.WriteString(strconv.Itoa(len(x)))
+		sb.WriteByte(':')
+		sb.WriteString(x)
+		sb.WriteByte(';')
 	case bool:
 		if x {
 			sb.WriteString("bt;")
@@ -655,12 +660,18 @@ func writeKey(sb *strings.Builder, v Value) {
 			sb.WriteString("bf;")
 		}
 	case Timestamp:
-		fmt.Fprintf(sb, "t%d;", int64(x))
+		sb.WriteByte('t')
+		sb.WriteString(strconv.FormatInt(int64(x), 10))
+		sb.WriteByte(';')
 	case Bytea:
 		fmt.Fprintf(sb, "x%s;", hex.EncodeToString(x))
 	case JSON:
 		s := x.keyString()
-		fmt.Fprintf(sb, "j%d:%s;", len(s), s)
+		sb.WriteByte('j')
+		sb.WriteString(strconv.Itoa(len(s)))
+		sb.WriteByte(':')
+		sb.WriteString(s)
+		sb.WriteByte(';')
 	case Composite:
 		sb.WriteString("c(")
 		for _, f := range x.Fields {
